@@ -219,12 +219,15 @@ package mqtt
 //@ ensures[C01,C13] err != nil ==> forall(k, st_has(c.persistence, k) == old(st_has(c.persistence, k)))
 //@ ensures[C01,C13] err != nil ==> forall(i, 0, len(c.atLeastOnce.queue), closed(qat(c.atLeastOnce.queue, i)) == old(closed(qat(c.atLeastOnce.queue, i))))
 //@ ensures[C01,C13] forall(k, k != 32768 + old(c.Acked) % 16384 ==> st_has(c.persistence, k) == old(st_has(c.persistence, k)))
+// the acknowledgement in line is accepted (short of a failing store)
+//@ ensures[C01] len(c.peek) == 2 && c.peek[0]*256 + c.peek[1] == 32768 + old(c.Acked) % 16384 && old(len(c.atLeastOnce.queue)) > 0 ==> err == nil || perr(err)
 
 //@ func mqtt.(*Client).onPUBCOMP -> err
 //@ ensures old(wrap64(c.Received - c.Completed)) <= old(len(c.exactlyOnce.queue)) ==> wrap64(c.Received - c.Completed) <= len(c.exactlyOnce.queue)
 //@ requires c.persistence != nil && c.exactlyOnce.queue != nil
 //@ modifies c.Completed, chanstate(c.exactlyOnce.queue), region("chan.closed.error"), st_has(c.persistence, c.peek[0]*256 + c.peek[1])
 //@ ensures[C01,C03,C13] err == nil ==> len(c.peek) == 2 && c.peek[0]*256 + c.peek[1] == 49152 + old(c.Completed) % 16384
+//@ ensures[C01,C03] len(c.peek) == 2 && c.peek[0]*256 + c.peek[1] == 49152 + old(c.Completed) % 16384 && old(c.Completed) < old(c.Received) && old(len(c.exactlyOnce.queue)) > 0 ==> err == nil || perr(err)
 //@ ensures[C01,C03,C13] err == nil ==> old(c.Completed) < old(c.Received) && old(len(c.exactlyOnce.queue)) > 0 && len(c.exactlyOnce.queue) == old(len(c.exactlyOnce.queue)) - 1
 //@ ensures[C01,C03,C13] err == nil ==> c.Completed == old(c.Completed) + 1 && c.Received == old(c.Received) && closed(old(qat(c.exactlyOnce.queue, 0)))
 //@ ensures[C01,C03,C13] err == nil ==> !st_has(c.persistence, 49152 + old(c.Completed) % 16384)
@@ -253,6 +256,8 @@ package mqtt
 //@ ensures[C01,C03,C13] c.Received == old(c.Received) ==> err != nil && forall(k, st_has(c.persistence, k) == old(st_has(c.persistence, k)) && st_len(c.persistence, k) == old(st_len(c.persistence, k)) && st_val(c.persistence, k) == old(st_val(c.persistence, k)))
 //@ ensures[C03,C13] c.Completed == old(c.Completed) && len(c.exactlyOnce.queue) == old(len(c.exactlyOnce.queue))
 //@ ensures[C03] err == nil ==> c.Received == wrap64(old(c.Received) + 1) && len(c.pendingAck) == 0
+// the PUBREC in line is accepted: what can still fail is the store or the write
+//@ ensures[C01,C03] len(c.peek) == 2 && c.peek[0]*256 + c.peek[1] == 49152 + old(c.Received) % 16384 && old(wrap64(c.Received - c.Completed)) < old(len(c.exactlyOnce.queue)) ==> err == nil || perr(err) || Is(err, ErrSubmit) || err == ErrDown || err == ErrClosed
 //@ ensures[C01,C03,C07] err != nil && c.Received == wrap64(old(c.Received) + 1) ==> len(c.pendingAck) == 4 && c.pendingAck[0] == 98 && c.pendingAck[1] == 2 && c.pendingAck[2] * 256 + c.pendingAck[3] == 49152 + old(c.Received) % 16384
 //@ ensures[C03] err != nil && c.Received == old(c.Received) ==> len(c.pendingAck) == 0 || c.pendingAck == old(c.pendingAck)
 
@@ -267,6 +272,7 @@ package mqtt
 //@ requires c.persistence != nil
 //@ requires ref(c.peek) != ref(c.pendingAck) || ref(c.peek) == 0
 //@ ensures[C04,C13] err == nil ==> len(c.peek) == 2 && c.peek[0]*256 + c.peek[1] != 0 && !st_has(c.persistence, 65536 + c.peek[0]*256 + c.peek[1]) && len(c.pendingAck) == 0
+//@ ensures[C04,C13] len(c.peek) == 2 && c.peek[0]*256 + c.peek[1] != 0 && old(len(c.pendingAck)) == 0 ==> err == nil || perr(err) || Is(err, ErrSubmit) || err == ErrDown || err == ErrClosed
 //@ ensures[C04,C13] len(c.peek) != 2 || c.peek[0]*256 + c.peek[1] == 0 ==> err != nil && forall(k, st_has(c.persistence, k) == old(st_has(c.persistence, k))) && c.pendingAck == old(c.pendingAck)
 //@ ensures[C04] forall(k, len(c.peek) == 2 && k != 65536 + c.peek[0]*256 + c.peek[1] ==> st_has(c.persistence, k) == old(st_has(c.persistence, k)))
 //@ ensures[C04,C07] err != nil && len(c.pendingAck) != old(len(c.pendingAck)) ==> len(c.pendingAck) == 4 && c.pendingAck[0] == 112 && c.pendingAck[1] == 2 && c.pendingAck[2] == c.peek[0] && c.pendingAck[3] == c.peek[1] && !st_has(c.persistence, 65536 + c.peek[0]*256 + c.peek[1])
@@ -350,6 +356,8 @@ package mqtt
 //@ ensures[C11] forall(k, len(c.peek) >= 2 && k != c.peek[0]*256 + c.peek[1] ==> has(c.perPacketID, k) == old(has(c.perPacketID, k)) && at(c.perPacketID, k) == old(at(c.perPacketID, k)))
 //@ ensures[C11] err == nil ==> !has(c.perPacketID, c.peek[0]*256 + c.peek[1])
 //@ ensures[C11] err == nil && old(has(c.perPacketID, c.peek[0]*256 + c.peek[1])) && old(at(c.perPacketID, c.peek[0]*256 + c.peek[1])).done != nil ==> closed(old(at(c.perPacketID, c.peek[0]*256 + c.peek[1])).done)
+// a well-formed SUBACK (one legal return code per filter of the request it answers, or for no request at all) is accepted
+//@ ensures[C11,C13] len(c.peek) >= 3 && c.peek[0]*256 + c.peek[1] != 0 && (c.peek[0]*256 + c.peek[1]) - (c.peek[0]*256 + c.peek[1]) % 8192 == 24576 && forall(j, 0, len(c.peek) - 2, c.peek[2+j] == 0 || c.peek[2+j] == 1 || c.peek[2+j] == 2 || c.peek[2+j] == 128) && (!old(has(c.perPacketID, c.peek[0]*256 + c.peek[1])) || len(old(at(c.perPacketID, c.peek[0]*256 + c.peek[1])).topicFilters) == len(c.peek) - 2) ==> err == nil
 
 //@ func mqtt.(*Client).onUNSUBACK -> err
 //@ modifies region("map.map[uint16]mqtt.unorderedCallback"), region("map.len"), region("chan.closed.error")
@@ -358,6 +366,7 @@ package mqtt
 //@ ensures[C11] forall(k, len(c.peek) >= 2 && k != c.peek[0]*256 + c.peek[1] ==> has(c.perPacketID, k) == old(has(c.perPacketID, k)) && at(c.perPacketID, k) == old(at(c.perPacketID, k)))
 //@ ensures[C11] err == nil ==> !has(c.perPacketID, c.peek[0]*256 + c.peek[1])
 //@ ensures[C11] err == nil && old(has(c.perPacketID, c.peek[0]*256 + c.peek[1])) && old(at(c.perPacketID, c.peek[0]*256 + c.peek[1])).done != nil ==> closed(old(at(c.perPacketID, c.peek[0]*256 + c.peek[1])).done)
+//@ ensures[C11,C13] len(c.peek) == 2 && c.peek[0]*256 + c.peek[1] != 0 && (c.peek[0]*256 + c.peek[1]) - (c.peek[0]*256 + c.peek[1]) % 8192 == 16384 ==> err == nil
 
 // writeBuffersTo: as writeTo, over the flattened buffers.
 //@ func mqtt.writeBuffersTo -> err
